@@ -23,7 +23,8 @@ import (
 
 // ECAL literal of every entry of c01Vals (checked against the table in Setup)
 var c01ValLit = []string{"null", "1", `"x"`, "[1]", `{"a":1}`, `"1"`, "2", "true", "[1]", "[2]", `{"a":1}`,
-	`{"a":2}`, `"x1"`, `""`, `"<nil>"`, "[[1]]", "[]", "{}", "false", `"[1]"`, "", "0", "-0"}
+	`{"a":2}`, `"x1"`, `""`, `"<nil>"`, "[[1]]", "[]", "{}", "false", `"[1]"`, "", "0", "-0",
+	`{"a":{"b":1}}`, `[{"a":1}]`, `{"a":[1]}`, `{"a":{"b":1}}`}
 
 // the value indexes usable in ECAL cases (filled in Setup: literal evaluates to the table value)
 var c01ECALVals []int
@@ -130,7 +131,12 @@ func c01Program(c *c01Case) string {
 			}
 			attrs = append(attrs, "statematch {"+strings.Join(kvs, ", ")+"}")
 		}
-		attrs = append(attrs, fmt.Sprintf("priority %d", r.prio))
+		// priority is floored by createRule: every third rule writes it as a fraction
+		if (r.prio+ri)%3 == 1 {
+			attrs = append(attrs, fmt.Sprintf("priority %v", float64(r.prio)+0.5))
+		} else {
+			attrs = append(attrs, fmt.Sprintf("priority %d", r.prio))
+		}
 		if len(r.supp) > 0 {
 			attrs = append(attrs, "suppresses "+c01StrList(r.supp))
 		}
@@ -158,7 +164,7 @@ func c01Program(c *c01Case) string {
 		if c.mode == "a" {
 			f = "addEvent"
 		}
-		args := []string{c01Str(e.name), c01Str(strings.Join(e.kind, ".")), c01StateLit(i, e.state)}
+		args := []string{c01Str(e.name), c01Item(strings.Join(e.kind, ".")), c01StateLit(i, e.state)}
 		if !c.scopeNil {
 			args = append(args, c01ScopeLit(c.scope, i))
 		}
@@ -342,7 +348,7 @@ func c01GenECAL(g *Gen, emit func(c *c01Case, what string)) {
 		nr := 1 + g.R.Intn(6)
 		var kindsUsed []string
 		for j := 0; j < nr; j++ {
-			r := c01Rule{name: fmt.Sprintf("r%d", j), prio: g.R.Intn(4), stateNil: g.R.Intn(3) == 0}
+			r := c01Rule{name: fmt.Sprintf("r%d", j), prio: g.R.Intn(6) - 2, stateNil: g.R.Intn(3) == 0}
 			for k, m := 0, 1+g.R.Intn(2); k < m; k++ {
 				if len(kindsUsed) > 0 && g.R.Intn(3) == 0 {
 					r.kinds = append(r.kinds, kindsUsed[g.R.Intn(len(kindsUsed))])
